@@ -230,7 +230,22 @@ def execute(cell, deviations=None):
         starts = evs.count("start")
         summary.append([b, calls, evs, lifecycle.rest_state(res.obs.get(mid, []))])
         kinds_ = [c[0] for c in calls]
-        if len(calls) != 1:
+        if cell.get("zero_backoff") and starts == 0 and b in ("bad_json", "bad_args", "dep_raises") and len(calls) > 1:
+            # the body is never entered, so a redelivery cannot be parked: with a zero back-off the retried
+            # message comes straight back and is disposed again - one disposition per delivery, as a chain
+            chain = []
+            pk = dict(p0)
+            while True:
+                dk, ck, rk = expected(b, pk, cell["store"])
+                chain.append(((ck, dk[1] if ck == "requeue" else None), rk))
+                if dk[0] != "retry":
+                    break
+                pk["tried"] += 1
+            if calls != [c for c, _ in chain[:len(calls)]]:
+                viol.append(("call-count", f"{mid} ({b}): terminal broker calls {calls} over {len(calls)} deliveries, "
+                                           f"expected a prefix of {[c for c, _ in chain]}"))
+            rest = chain[len(calls) - 1][1]
+        elif len(calls) != 1:
             viol.append(("call-count", f"{mid} ({b}): {len(calls)} terminal broker calls {calls}, expected exactly one {call}"))
         elif kinds_[0] != call:
             viol.append(("wrong-call", f"{mid} ({b}): terminal call {calls[0]}, expected {call} ({d})"))
